@@ -268,7 +268,7 @@ impl Prop for C09 {
         "C09"
     }
     fn cases(&self, tier: Tier) -> u64 {
-        tier.pick(20_000, 300_000)
+        tier.pick(20_000, 500_000)
     }
     fn max_shrink_iters(&self) -> u32 {
         400
